@@ -8,7 +8,7 @@ git -C /repo worktree add -q --detach "$wt" HEAD || exit 3
 if ! git -C "$wt" apply --whitespace=nowarn "$patch"; then echo "PATCH DOES NOT APPLY"; git -C /repo worktree remove --force "$wt"; exit 3; fi
 cd /verif
 cache=/verif/.cache/selftest.$$
-VERIF_REPO="$wt" VERIF_CACHE=$cache ./check "$prop" --tier "$tier" > "$wt.log" 2>&1
+VERIF_REPO="$wt" VERIF_CACHE=$cache VERIF_EVIDENCE_DIR=$cache/evidence ./check "$prop" --tier "$tier" > "$wt.log" 2>&1
 rc=$?
 grep -E "^VIOLATION|^  key|^KNOWN|^C[0-9]+ |^INCONC|^HARNESS" "$wt.log" | cut -c1-300 | head -${MAXLINES:-12}
 rm -f "$wt.log"
